@@ -210,10 +210,16 @@ def verify(contract, timeout_s=30, callees=None, include=None, exclude=None):
     import re
     info['generated'] = len(obls)
     obls = [o for o in obls if (include is None or re.search(include, o.name)) and not (exclude and re.search(exclude, o.name))]
+    # obligation names need not be unique (two calls of the same callee give two `call[f]/requires/...`): discharge under unique ids
+    names = [o.name for o in obls]
+    for i, o in enumerate(obls):
+        o.name = '%s@@%d' % (names[i], i)
     res = solve.discharge(obls, timeout_s=timeout_s)
+    for o, nm in zip(obls, names):
+        o.name = nm
     info['vacuous'] = solve.vacuity(eng)
     info['gen_seconds'] = time.time() - t0
-    out = [EvObl(r['name'], info['function'], r['status'], r['backend'], r['seconds'], r['detail'], r['kind']) for r in res]
+    out = [EvObl(r['name'].rsplit('@@', 1)[0], info['function'], r['status'], r['backend'], r['seconds'], r['detail'], r['kind']) for r in res]
     return out, info
 
 
